@@ -240,7 +240,7 @@ def replay(rec, PS, ss, history, init_value):
             want = sv + n % 10
             rec.count("lockstep-next")
             rec.seen("counter_x_op", "%d:next" % (n % 10))
-            if got != want:
+            if got != want or not isinstance(got, int):
                 rec.violation("lockstep", "request #%d returned %r, expected start %d + %d" % (n, got, sv, n % 10), {"history": history[: i + 1], "init": init_value})
                 return
             outs.append(got)
